@@ -60,7 +60,7 @@ def strategy(ctx):
         # every shard starts with Hypothesis' all-minimal example (16 shards -> 16 copies of the
         # same trivial module, one gcc run each): reject it before anything is built
         assume(draw(st.integers(0, 255)) != 0)
-        mod = draw(callgen.modules())
+        mod = draw(callgen.modules(many_args=True))
         n = draw(st.integers(ncalls // 2, ncalls))
         calls = [draw(callgen.call_tuples(mod)) for _ in range(n)]
         # ... and with max_examples >= 10 Hypothesis spends its first max_examples/10 valid
@@ -196,7 +196,7 @@ def prop(case, ctx):
             f = mod['funcs'][fidx]
             if partial_struct_arg(mod, f, argvals) and ctx.skip_known('struct-arg-partial-init'):
                 continue
-            if not f.get('va') and callgen.libffi_last_gpr_mixed_struct(mod, f['args']) and \
+            if not f.get('va') and callgen.libffi_last_gpr_mixed_struct(mod, f['args'], f['ret']) and \
                     ctx.skip_known('libffi-mixed-struct-in-last-gpr'):
                 continue
             proto = callgen.func_proto(fidx, f)
